@@ -369,6 +369,9 @@ FIXED = {
     "macro_unbound_vs_caller_locals": ("{% macro mm p, q, r: c %}[{{ p }}|{{ q }}|{{ r }}]{% endmacro %}{% assign p = a %}{% capture q %}{{ b }}{% endcapture %}{% call mm %}"
                                        "{% for q in (1..1) %}{% call mm q: 7 %}{% for p in (2..2) %}{% call mm %}{% endfor %}{% endfor %}{% with p: b, q: a, r: a %}{% call mm %}{% endwith %}{% increment p %}{% call mm r: p %}",
                                        lambda a, b, c, gx, gy, nn, m: "[||%s][|7|%s][||%s][||%s]0[||%s]" % (S(c), S(c), S(c), S(c), S(a))),
+    "nil_bindings": ("{% with x: nil, y: false %}[{{ x }}|{{ y }}]{% endwith %}{% with x: o.none %}[{{ x }}]{% endwith %}{% with x: a %}{% with x: nil %}[{{ x }}]{% endwith %}{% endwith %}"
+                     "{% macro mm x: 'd', y: c %}({{ x }}|{{ y }}){% endmacro %}{% call mm nil %}{% call mm y: nil %}{% call mm o.none, o.none %}",
+                     lambda a, b, c, gx, gy, nn, m: "[|false][][](|%s)(d|)(|)" % S(c)),
     "macro_redefined_in_loop": ("{% for i in (1..3) %}{% if i == 2 %}{% macro mm p: b, q: 'Q' %}<{{ p }}{{ q }}>{% endmacro %}{% else %}{% macro mm p: a, q: c %}<{{ p }}{{ q }}>{% endmacro %}{% endif %}{% call mm %}{% call mm q: i %}{% endfor %}",
                                 lambda a, b, c, gx, gy, nn, m: "<%s%s><%s1><%sQ><%s2><%s%s><%s3>" % (S(a), S(c), S(a), S(b), S(b), S(a), S(c), S(a))),
     "macro_call_in_cached_partial": ("{% macro mm p: a %}<{{ p }}>{% endmacro %}{% include 'callmm' %}{% macro mm p: b %}[{{ p }}]{% endmacro %}{% include 'callmm' %}{% macro mm p %}({{ p }}){% endmacro %}{% include 'callmm' %}",
@@ -415,7 +418,7 @@ T_FIXED = {k: (ENV_LAX if k.endswith("_lax_error") else ENV_PART if k.endswith("
 
 
 def fixed_case(key, asy, a, b, c, gx, gy, nn, m):
-    data = {"a": a, "b": b, "c": c, "x": gx, "y": gy, "n": nn, "m": m, "o": {"v": a}}
+    data = {"a": a, "b": b, "c": c, "x": gx, "y": gy, "n": nn, "m": m, "o": {"v": a, "none": None}}
     return render(T_FIXED[key], data, asy), FIXED[key][1](a, b, c, gx, gy, nn, m)
 
 
@@ -426,7 +429,7 @@ GROUPS = {
     "with_left_early": ("with_break_no_leak", "with_continue_every", "with_break_nested", "with_lax_error"),
     "with_and_macro": ("with_around_call", "with_in_macro", "macro_own_scope", "macro_no_leak"),
     "macro_defaults": ("macro_two_calls", "macro_late_default", "macro_literal_defaults", "macro_nil_argument"),
-    "macro_redefined": ("macro_redefined_in_loop", "macro_call_in_cached_partial", "macro_unbound_vs_caller_locals"),
+    "macro_redefined": ("nil_bindings", "macro_redefined_in_loop", "macro_call_in_cached_partial", "macro_unbound_vs_caller_locals"),
     "macro_forms": ("macro_in_for", "macro_quoted_name", "macro_docs_variadic", "macro_caller_scope", "macro_commas"),
 }
 
